@@ -17,9 +17,14 @@
 (*          trace at its k-th value.                                       *)
 (*  scan2 : PhaseDiagram.get_GoRT_2D, the same with tab n x np x nq,       *)
 (*          st np x nq (nested), own n x np x nq, T np x nq.               *)
-(*  span  : Reactions.get_E_span / Network.get_E_span.  G = the Gibbs      *)
-(*          energies of the states in the order the sequence visits them   *)
-(*          (computed by the driver from the reactions / species), span.   *)
+(*  span  : Reactions.get_E_span / Network.get_E_span.                     *)
+(*          api = "reactions": steps = one record per step [r, t, p] (the  *)
+(*          Gibbs energy of its reactant state, <<>> or <<TS energy>>, its *)
+(*          product state; each from the reaction's own get_G_state) and   *)
+(*          the spec forms States(steps) itself - every step's reactant    *)
+(*          state is a state of the sequence, whether or not it equals the *)
+(*          previous product state.  api = "network": G = the energies of  *)
+(*          the nodes of the path, in order.  span = the returned value.   *)
 (*                                                                         *)
 (* Clauses: TableShape, EntryMatches, StableShape,                         *)
 (* StableIsArgMinOfReturnedTable, OneDEqualsTwoDSlice, SpanDefinition,     *)
@@ -80,9 +85,10 @@ Scan2Clauses(e) ==
 \* largest operand -> k = 7
 SpanClauses(e) ==
    IF ~e.finite THEN {"Finite"} ELSE
-   IF \E a \in ArgMaxs(e.G, Le) : \E b \in ArgMins(e.G, Le) :
-         CloseIn(e.span, SpanAt(e.G, a, b, Add, Sub, Zero),
-                 {e.G[a], e.G[b], e.G[1], e.G[Len(e.G)]}, 7)
+   LET G == IF e.api = "reactions" THEN States(e.steps) ELSE e.G IN
+   IF \E a \in ArgMaxs(G, Le) : \E b \in ArgMins(G, Le) :
+         CloseIn(e.span, SpanAt(G, a, b, Add, Sub, Zero),
+                 {G[a], G[b], G[1], G[Len(G)]}, 7)
    THEN {} ELSE {"SpanDefinition"}
 
 Clauses(e) ==
